@@ -383,6 +383,7 @@ Plan gen_model(uint64_t seed, const string &prop) {
   bool mid_values = r.chance(0.4);
   if (big_values) nops = std::min(nops, 300);
   if (g_light) nops = std::min(nops, 250);
+  if (!keys.empty() && keys[0].size() > 150) nops = std::min(nops, 250); // long-key key spaces are costly to sweep
   // swarm weights
   double w[O_NKINDS] = {0};
   auto sw = [&](double base) { static const double f[] = {0, 0.5, 1, 1, 2, 4}; return base * r.pick(f); };
